@@ -65,6 +65,9 @@ type c18Case struct {
 	Extra    string `json:"extra,omitempty"`
 	// BigFrames: the peer's first SETTINGS (handshake) already allows 65536-byte frames and a 4 MiB window
 	BigFrames bool `json:"big_frames_in_handshake,omitempty"`
+	// SmallWin (client role): the handshake allows 65536-byte frames but a 10000-byte stream window, and the
+	// body is 100000 bytes: most of the upload is still waiting for credit when the SETTINGS frames arrive
+	SmallWin bool `json:"small_window_big_frames,omitempty"`
 }
 
 // peerLimits tracks what the peer has told the endpoint.
@@ -346,6 +349,9 @@ func c18Client(cs c18Case) (*fw.Violation, *harness.Client) {
 	if cs.BigFrames {
 		co.ServerSettings = []peer.Setting{{ID: 4, Val: 4 << 20}, {ID: 5, Val: 65536}}
 	}
+	if cs.SmallWin {
+		co.ServerSettings = []peer.Setting{{ID: 4, Val: 10000}, {ID: 5, Val: 65536}}
+	}
 	h := harness.NewClient(co)
 	mk := func(rule, shape, detail string) *fw.Violation {
 		return &fw.Violation{Rule: rule, Shape: "client " + shape, Detail: detail + "\n    events: " + strings.Join(h.EventLog, " ; "), Replay: map[string]any{"family": "c18", "case": cs}}
@@ -360,6 +366,9 @@ func c18Client(cs c18Case) (*fw.Violation, *harness.Client) {
 	if cs.BigBody {
 		body = []byte(valOfLen(20000))
 	}
+	if cs.SmallWin {
+		body = []byte(valOfLen(100000))
+	}
 	spec := func(i int) harness.ReqSpec {
 		s := harness.ReqSpec{Tag: fmt.Sprint("q", i), Method: "POST", Path: fmt.Sprint("/q", i), Headers: hdrs, Body: body}
 		if body == nil {
@@ -368,7 +377,7 @@ func c18Client(cs c18Case) (*fw.Violation, *harness.Client) {
 		return s
 	}
 	lim := &peerLimits{frame: 16384, table: 4096, streams: 100}
-	if cs.BigFrames {
+	if cs.BigFrames || cs.SmallWin {
 		lim.frame = 65536
 	}
 	mirror := ref.NewTable()
@@ -553,8 +562,12 @@ func c18Client(cs c18Case) (*fw.Violation, *harness.Client) {
 				if v := verify("warm-up"); v != nil {
 					return v, h
 				}
-				answered[1] = true
-				h.Send(0, srv.RespFrames(1, []ref.Field{{Name: ":status", Value: "200"}}, nil, nil, nil, -1)...)
+				w := uint32(1)
+				if len(srv.Order) > 0 {
+					w = srv.Order[0]
+				}
+				answered[w] = true
+				h.Send(0, srv.RespFrames(w, []ref.Field{{Name: ":status", Value: "200"}}, nil, nil, nil, -1)...)
 			}
 			n := 1
 			if cs.Extra == "burst" {
@@ -755,6 +768,24 @@ func runC18(c *fw.Ctx) {
 		for pa := 0; pa < 5; pa++ {
 			for pb := pa; pb < 5; pb++ {
 				do(c18Case{Role: role, Settings: []int{raise, lower}, At: []int{pa, pb}, BigHdr: true, BigBody: true, Two: true})
+			}
+		}
+	}
+	// uploads that are mostly waiting for credit (stream window 10000, frames up to 65536 allowed) when SETTINGS arrive
+	for _, two := range []bool{false, true} {
+		npos := 3
+		if two {
+			npos = 5
+		}
+		for a := range c18Alphabet {
+			for pa := 0; pa < npos; pa++ {
+				do(c18Case{Role: "client", Settings: []int{a}, At: []int{pa}, BigBody: true, Two: two, SmallWin: true})
+			}
+		}
+		for pa := 0; pa < npos; pa++ {
+			for pb := pa; pb < npos; pb++ {
+				do(c18Case{Role: "client", Settings: []int{raise, lower}, At: []int{pa, pb}, BigBody: true, Two: two, SmallWin: true})
+				do(c18Case{Role: "client", Settings: []int{lower, raise}, At: []int{pa, pb}, BigBody: true, Two: two, SmallWin: true})
 			}
 		}
 	}
